@@ -19,8 +19,9 @@ EXTENDS FeedbackLoop, TLC, Json, IOUtils
 
 Traces == ndJsonDeserialize(IOEnv.TRACE_FILE)
 
-VARIABLES tid, l, phase
-tvars == <<vars, tid, l, phase>>
+VARIABLES tid, l, phase,
+          Pv        \* dataflow: id (interned bit pattern, A2) of the covariance the filter must currently hold
+tvars == <<vars, tid, l, phase, Pv>>
 
 Tr == Traces[tid]
 Ev == Tr.events
@@ -55,7 +56,24 @@ Clauses == [
                                               /\ \A j \in 1..Len(MLines[k].hits) :
                                                     MLines[k].w[j] = ExpWidth(MLines[k].hits[j])
 ]
-Failing == {c \in DOMAIN Clauses : ~Clauses[c]}
+\* ---------------------------------------------------------------- dataflow of the estimation recursion (C12 clause 2, discrete part)
+\* The harness keeps its own copy of what P and x must be (initial covariance from the public transform_to_internal, every
+\* kalman.correct output, Phi P Phi' + Qd after every propagation) and logs per observed call whether its inputs are that value:
+\* *_ok = within 1e-9 relative (contract), *_bit / ids = bit-identical (refinement, walked line by line below).
+ALines == SelectSeq(Ev, LAMBDA e : e.a = "A")
+DataflowClause ==
+  Obs.flow.on =>
+    /\ Obs.flow.p0_ok                                            \* initial covariance = T diag(sd^2) T' (+) sensor-model P blocks
+    /\ \A k \in 1..Len(MLines) :
+          /\ \A j \in 1..Len(MLines[k].c) :
+                /\ MLines[k].c[j].pin_ok                          \* every correction starts from the CURRENT covariance
+                /\ MLines[k].c[j].xin_ok                          \* ... and error vector (zeros at the start of an epoch: errors were fed back)
+                /\ MLines[k].c[j].args_ok                         \* (z, H in the INS block and zero elsewhere, R) as the measurement model returned them
+          /\ MLines[k].set_ok                                     \* the state fed back is correct_pva(CURRENT integrator state, x[INS block])
+          /\ MLines[k].upd_ok                                     \* the sensor estimates get the gyro / accel blocks of the same x
+    /\ \A k \in 1..Len(ALines) : ALines[k].dt_ok               \* P is propagated over exactly the interval the integrator advanced
+    /\ (Obs.flow.rows_ok => Obs.flow.sd_ok /\ Obs.flow.est_ok)  \* sd / estimate tables are the values held at the recorded loop times
+Failing == {c \in DOMAIN Clauses : ~Clauses[c]} \cup (IF DataflowClause THEN {} ELSE {"dataflow"})
 
 \* ---------------------------------------------------------------- refinement, line by line
 TraceInit ==
@@ -65,13 +83,14 @@ TraceInit ==
             meas  |-> [s \in 1..Traces[tid].ns |-> ToSetS(Traces[tid].meas[s])],
             hz    |-> Traces[tid].hz]
   /\ InitLoop
+  /\ Pv = Traces[tid].obs.flow.p0id
   /\ l = 1 /\ phase = "contract"
 
 CheckContract ==
   /\ phase = "contract"
   /\ PrintT(<<"CONTRACT", Tr.tid, Failing>>)
   /\ phase' = (IF Tr.returned THEN "run" ELSE "stop")
-  /\ UNCHANGED <<vars, tid, l>>
+  /\ UNCHANGED <<vars, tid, l, Pv>>
 
 IsEvent(a) == phase = "run" /\ l <= Len(Ev) /\ Ev[l].a = a /\ l' = l + 1 /\ UNCHANGED <<tid, phase>>
 
@@ -82,6 +101,13 @@ TraceMeas ==
   /\ Sorted(Hits(Mts[mi])) = Ev[l].hits
   /\ Ev[l].corr = Len(Ev[l].hits) /\ Ev[l].set = 1 /\ Ev[l].upd = 2
   /\ Ev[l].pfrom = T /\ Ev[l].psign >= 0
+  /\ LET c == Ev[l].c IN
+       IF Obs.flow.on /\ c # <<>>
+       THEN /\ c[1].pin = Pv
+            /\ \A j \in 2..Len(c) : c[j].pin = c[j - 1].pout /\ c[j].xin = c[j - 1].xout
+            /\ Ev[l].set_bit
+            /\ Pv' = c[Len(c)].pout
+       ELSE UNCHANGED Pv
 
 TraceAdvance ==
   /\ IsEvent("A")
@@ -89,6 +115,7 @@ TraceAdvance ==
   /\ Ev[l].T = T /\ Ev[l].T2 = T'
   /\ Ev[l].batch = SubSeq(traj', Len(traj) + 1, Len(traj'))
   /\ Ev[l].dpos
+  /\ IF Obs.flow.on THEN Ev[l].psnap = Pv /\ Ev[l].dt_bit /\ Pv' = Ev[l].pexp ELSE UNCHANGED Pv
 
 TraceFinish ==
   /\ phase = "run" /\ l = Len(Ev) + 1
@@ -100,7 +127,7 @@ TraceFinish ==
   /\ Obs.resets = 2
   /\ TLCSet(1, TLCGet(1) + 1)
   /\ PrintT(<<"ACCEPT", Tr.tid>>)
-  /\ phase' = "accepted" /\ UNCHANGED <<tid, l>>
+  /\ phase' = "accepted" /\ UNCHANGED <<tid, l, Pv>>
 
 TraceNext == CheckContract \/ TraceMeas \/ TraceAdvance \/ TraceFinish
 TraceSpec == TraceInit /\ [][TraceNext]_tvars
